@@ -90,6 +90,17 @@ PROPS = {
         assumptions=['answers are consumed by the loop in the order the script releases them (1.5 ms settle between answers)', 'real-timer scenarios depend on the machine keeping up with 5 ms heartbeats (run 4 at a time)'],
         timeout={'quick': 900, 'thorough': 7200},
     ),
+    'C16': dict(
+        props_file='Props/C16.v',
+        components=['c16'],
+        comp_names={16: 'pipeline scripts on a real NetworkTransport pair (sends / handler answers / handler errors / connection kills)', 1016: 'field fidelity of every RPC kind and no-stale-response scenarios (monitored)'},
+        rule='(A, monitored) every RPC kind (AppendEntries, RequestVote, RequestPreVote, InstallSnapshot with streamed body, TimeoutNow, heartbeat fast path) with generated field values '
+             '(nil/empty slices, large entries, extensions, timestamps, all log types, header variants) sent through a real NetworkTransport pair over an in-memory stream layer; request seen by the handler and response/error seen by the caller compared field by field; '
+             '(B, compared with the Coq model) every pipeline script of sends, handler answers, handler errors and kills up to a bound plus random deeper scripts, run on a real AppendEntriesPipeline: per request, the tag of the response its future carried or error; '
+             '(C, monitored) failed and timed-out exchanges on pooled connections followed by new exchanges: no caller ever receives a response that belongs to another request. Non-trivial = script with at least two requests in flight and an answer',
+        assumptions=['in-memory StreamLayer (net.Pipe based) instead of TCP: tcp_transport.go is covered only through NewNetworkTransport', 'msgpack codec is not modelled: its prefix round-trip law is a hypothesis of the framing theorem, tested by part A'],
+        timeout={'quick': 900, 'thorough': 7200},
+    ),
     'C13': dict(
         props_file='Props/C13.v',
         components=['c13'],
